@@ -147,3 +147,45 @@ Example C12_accepted_spelling_example :
   parse_tokens builtin_table TmEof (etoks builtin_table (strip p1)) = Ok (strip p1).
 Proof. vm_compute. repeat split. Qed.
 Print Assumptions C12_accepted_spelling_example.
+
+(* THE ROUND TRIP FOR EVERYTHING parse_expression ACCEPTS - no premise about nesting, height or well-formedness is left.
+   Lemmas/PrattComplete.v proves the converse that was missing: every tree the parser returns has a spelling the grammar accepts
+   whose nesting is within what the parser had left (by induction over the parser's eight mutually recursive functions; the
+   precedence comparisons of the operator loop give exactly the spine conditions of [wfp]). With "the printer needs the least
+   nesting" that tree meets [premises]; with lemmas (A) and (B): if parse_expression accepts s and the leaves of its tree are
+   lexically sane (names that are not operator words, as the property says, made of name characters; numbers in range; no
+   string with both quote characters), then the text expr() writes is accepted and parses back to the same tree, and printing
+   that again gives the same text. For every operator table passing two computable checks, which the built-in table passes. *)
+From EE Require Import PrattComplete Unconditional.
+Theorem C12_round_trip_of_every_accepted_text : forall tbl s t,
+  tbl_complete_okb tbl = true -> tbl_print_okb tbl = true ->
+  api_parse tbl s = Ok t -> psaneb tbl t = true -> api_parse tbl (expr tbl t) = Ok t.
+Proof. exact accepted_text_round_trip. Qed.
+Print Assumptions C12_round_trip_of_every_accepted_text.
+
+Theorem C12_idempotent_for_every_accepted_text : forall tbl s t,
+  tbl_complete_okb tbl = true -> tbl_print_okb tbl = true -> api_parse tbl s = Ok t -> psaneb tbl t = true ->
+  match api_parse tbl (expr tbl t) with Ok t2 => expr tbl t2 = expr tbl t | _ => False end.
+Proof. intros tbl s t H1 H2 H3 H4. rewrite (accepted_text_round_trip tbl s t H1 H2 H3 H4). reflexivity. Qed.
+Print Assumptions C12_idempotent_for_every_accepted_text.
+
+(* every tree the parser returns meets the premises of the round-trip theorems (or is the empty program) *)
+Theorem C12_accepted_trees_meet_the_premises : forall tbl s t, tbl_complete_okb tbl = true ->
+  api_parse tbl s = Ok t -> premises tbl t = true \/ t = AStmt [].
+Proof. exact accepted_premises. Qed.
+Print Assumptions C12_accepted_trees_meet_the_premises.
+
+Theorem C12_builtin_table_complete_ok : tbl_complete_okb builtin_table = true.
+Proof. vm_compute. reflexivity. Qed.
+Print Assumptions C12_builtin_table_complete_ok.
+
+(* the hypotheses are met by a real program (the source of C12_example: an assignment to an assignment, a prefix operator over
+   parentheses, a call with a list and a map, a string with a double quote, a `not +` form) under the built-in table *)
+Example C12_accepted_text_example :
+  let src := [40; 97; 61; 98; 41; 61; 45; 40; 49; 43; 50; 41; 42; 102; 40; 91; 120; 43; 43; 93; 44; 123; 39; 107; 34; 39; 58; 99; 32; 110; 111; 116; 32; 43; 32; 100; 125; 41] in
+  match api_parse builtin_table src with
+  | Ok t => psaneb builtin_table t = true /\ api_parse builtin_table (expr builtin_table t) = Ok t
+  | _ => False
+  end.
+Proof. vm_compute. split; reflexivity. Qed.
+Print Assumptions C12_accepted_text_example.
